@@ -358,7 +358,7 @@ func ParseURI(uri SIPStr, puri *PsipURI) (ErrorURI, int) {
 			case '[': // ipv6 addr: [ipv6]
 				state = uHost61
 				s = i
-			case ':', ']': // invalid char at uri start
+			case ':', ']', '@': // invalid char at uri start (empty user)
 				return ErrURIBadChar, i
 			default:
 				state = uUser
